@@ -76,8 +76,13 @@ def engineOp (op : String) (j : Json) : Except String Json := do
       Pc := inFromOut (tbl ts "eta_gen").fn (tbl ts "inv_gen").fn rg P
     want ts "eta" (load rated Pc)
     let hasSplit := (fldD j "split" (Json.bool false)) == Json.bool true
-    if hasSplit then want ts "ratio" (Pc / rated)
-    let r := cogas (tbl ts "eta").fn (tbl ts "ratio").fn rated lhv Pc
+    -- the share at this load from the two GIVEN power curves (oracles "gt", "st": interpolants of the case's own points);
+    -- "ratio" (the share of the points) is used only where neither turbine delivers power
+    if hasSplit then
+      want ts "gt" (Pc / rated)
+      want ts "st" (Pc / rated)
+      want ts "ratio" (Pc / rated)
+    let r := cogas (tbl ts "eta").fn (shareOf (tbl ts "gt").fn (tbl ts "st").fn (tbl ts "ratio").fn) rated lhv Pc
     let species ← (← jArr (fldD j "species" (Json.arr #[]))).mapM jStr
     let mut sp : List (String × Json) := []
     for s in species do
